@@ -60,6 +60,8 @@ def strata(tier):
                 out.append(dict(id="%s-D%d-N%d" % (v, D, N), v=v, D=D, N=N))
             if tier != "quick" or D == 1 + (VARIANTS.index(v) % 3) or (D == 1 and v in ("adv_v", "diff_m", "disp_s1", "hyp1")):
                 out.append(dict(id="%s-D%d-anyN" % (v, D), v=v, D=D, N="any"))  # grid size drawn from a wide range
+        # production-size 1D grids: k^j of the highest modes exceeds 2^31 / 2^63 for the higher derivative orders
+        out.append(dict(id="%s-D1-hugeN" % v, v=v, D=1, N="any", n_choices=[512, 1000, 1023, 2048, 3001, 4096, 6000]))
     return out
 
 
@@ -104,7 +106,7 @@ def kw_strategy(v, D):
     if v == "wave":
         # documented: c in R - positive, negative and exactly zero (every mode is then a zero-frequency mode)
         return st.fixed_dictionaries(dict(speed_of_sound=st.one_of(gens.nonzero_coef(0.1, 5.0), gens.nonzero_coef(0.1, 5.0), gens.nonzero_coef(0.1, 5.0), st.just(0.0))))
-    coefs = st.lists(st.one_of(st.just(0.0), gens.nonzero_coef(0.01, 2.0)), min_size=1, max_size=7)
+    coefs = st.lists(st.one_of(st.just(0.0), gens.nonzero_coef(0.01, 2.0)), min_size=1, max_size=9)
     if v == "genlin":
         return st.fixed_dictionaries(dict(linear_coefficients=coefs))
     if v == "normlin":
@@ -112,7 +114,7 @@ def kw_strategy(v, D):
     if v == "difflin":
         return st.fixed_dictionaries(dict(linear_difficulties=coefs))
     if v == "diffsimple":
-        return st.fixed_dictionaries(dict(difficulty=gens.nonzero_coef(0.1, 10.0), order=st.integers(0, 6)))
+        return st.fixed_dictionaries(dict(difficulty=gens.nonzero_coef(0.1, 10.0), order=st.integers(0, 8)))
     raise KeyError(v)
 
 
